@@ -15,6 +15,31 @@ NA = {
 PENDING = "check under construction in this session (see DESIGN.md 10 build order)"
 
 CHECKS = {
+    "C08": dict(
+        category="other",
+        text="The validation clause of WeightedAliasIndex::new decided by abstract interpretation for every extracted weight type on homogeneous "
+             "vectors of lengths 0/1/3/7 and every weight cell incl. the exact boundary MAX/len, MAX, +inf, -0: InvalidInput / InvalidWeight / "
+             "InsufficientNonZero exactly as documented, otherwise none of them. Each case is an interval of weights, not a sample.",
+        design_ref="DESIGN.md 5/C08",
+        note="Only the validation clause is claimed. NOT decided: exactness of the alias table for integer weights, weights() reconstruction, "
+             "sampling frequencies, zero-weight indices never returned (numerical / data-structure invariants), panic freedom of the table "
+             "construction (index operations are reported as not discharged). Lengths > u32::MAX are not enumerable.",
+        technique="abstract interpretation of rustc MIR (interval domain, vector summaries) against the documented error cases",
+        engine="rdx+E2",
+    ),
+    "C11": dict(
+        category="other",
+        text="Structural clauses for Dirichlet: the constructor verdict on the cell partition (shared oracle with C04); the FromBeta/FromGamma switch "
+             "incl. the 0.1 boundary; length algebra with exact lengths by trace-partitioned abstract interpretation (sample_len = n in both "
+             "representations, sample() returns n components, buffer assertion and last index discharged); the suffix-sum recurrence's index "
+             "offsets by symbolic index terms (the defect class 'correct length, correct sum, wrong Beta parameter' that means cannot see); "
+             "sample() = one sample_to_slice on a sample_len() buffer.",
+        design_ref="DESIGN.md 5/C11",
+        note="NOT decided: components in [0,1], sum to 1 within ulps, Beta marginals, NaN rates (numerical; the single-draw NaN/inf clause of the "
+             "Gamma/Beta sub-samplers is under C03). Lengths are checked for n in {2,3,6}; the index-offset rule is for all n.",
+        technique="abstract interpretation with trace partitioning on exact lengths + symbolic (linear) index-term extraction on rustc MIR",
+        engine="rdx+E2+E4",
+    ),
     "C09": dict(
         category="other",
         text="Structural clauses of tree consistency decided from the MIR of every instantiation of new/push/pop/update/get/try_sample: "
